@@ -93,6 +93,19 @@ func batch(res *evid.Result, bi int, root string) {
 	dir := filepath.Join(root, fmt.Sprintf("b%d", bi))
 	defer os.RemoveAll(dir)
 	base := gen.NewFile(r, "p", evid.Pick(30, 50), true)
+	// same-shape siblings: one topology hash, different literals (so that each scores clearly
+	// below 0.99 against the others' signatures)
+	for k, lits := range [][3]string{{"alpha-marker-0001", "1000", "x"}, {"a much longer second literal with other characters: ÄÖÜ €", "70000", "yyyyyyyyyyyyyyyyyyyyyy"}, {"z", "123456789", "http://203.0.113.9/stage2.bin?id="}} {
+		name := fmt.Sprintf("Sib%d", k)
+		base.Funcs = append(base.Funcs, gen.Func{Name: name, Sig: gen.SigII, Exec: true, Tags: []string{"sibling-shape"}, Text: fmt.Sprintf(`func %s(a int, b int) (res int) {
+	res = len(hs1(%q)) + a*%s
+	if res > b {
+		res -= len(hs2(%q))
+	}
+	return res
+}
+`, name, lits[0], lits[1], lits[2])})
+	}
 	kindSets := [][]string{{"rename-locals"}, {"rename-func"}, {"comment", "reorder"}, {"rename-locals", "rename-func", "comment", "reorder"}}
 	var vs []*pairs.Variant
 	for k, ks := range kindSets {
@@ -287,6 +300,31 @@ func batch(res *evid.Result, bi int, root string) {
 							continue
 						}
 						break
+					}
+				}
+			}
+			// exact mode against the stores that hold EVERY signature, same-shape siblings
+			// included (same topology hash, other literals): exact mode reports one signature,
+			// so only "some alert with (near-)full confidence" is demanded - which sibling is
+			// named when several are indistinguishable is not
+			if class == "refactored" || class == "identical-copy" {
+				for bk, sc := range map[string]scanner{"pebble": pFull, "json": jFull} {
+					for _, thr := range []float64{0.5, 0.99} {
+						switch s := sc.(type) {
+						case *pebbledb.PebbleScanner:
+							s.SetThreshold(thr)
+						case *jsondb.Scanner:
+							s.SetThreshold(thr)
+						}
+						a, err := sc.ScanTopologyExact(ft.topo, ft.short)
+						res.Eval(1)
+						w := map[string]any{"function": ft.short, "indexed_as": orig, "variant": t.pkg, "threshold": thr, "batch": bi, "first_of_its_hash": inExact[orig]}
+						if err != nil {
+							res.Violate(bk+"/exact/scan-error", err.Error(), w)
+						} else if a == nil || a.Confidence < 0.99 {
+							res.Violate(bk+"/exact-among-siblings/missing/"+class, fmt.Sprintf("%s (indexed as %s): exact scan of the %s store holding all signatures returned %v at threshold %v", ft.short, orig, bk, a, thr), w)
+							break
+						}
 					}
 				}
 			}
